@@ -382,6 +382,15 @@ func (ctx *Context) evaluate() {
 		return false
 	}
 
+	// 骰池类算符(WoD/双重十字)的操作数必须是整数，否则报错(而不是在 MustReadInt 处崩溃)
+	readDiceInt := func(v *VMValue) (IntType, bool) {
+		n, ok := v.ReadInt()
+		if !ok {
+			ctx.Error = errors.New("E6: 类型错误, 骰池算符的参数必须为整数")
+		}
+		return n, ok
+	}
+
 	diceStateIndex := -1
 	var diceStates []struct {
 		times    IntType // 次数，如 2d10，times为2
@@ -1017,28 +1026,48 @@ func (ctx *Context) evaluate() {
 			// if v.TypeId != VMTypeInt {
 			//   // ...
 			// }
-			wodState.points = v.MustReadInt()
+			n, ok := readDiceInt(v)
+			if !ok {
+				return
+			}
+			wodState.points = n
 		case typeWodSetThreshold:
 			v := stackPop()
-			wodState.threshold = v.MustReadInt()
+			n, ok := readDiceInt(v)
+			if !ok {
+				return
+			}
+			wodState.threshold = n
 			wodState.isGE = true
 		case typeWodSetThresholdQ:
 			v := stackPop()
-			wodState.threshold = v.MustReadInt()
+			n, ok := readDiceInt(v)
+			if !ok {
+				return
+			}
+			wodState.threshold = n
 			wodState.isGE = false
 		case typeWodSetPool:
 			v := stackPop()
-			wodState.pool = v.MustReadInt()
+			n, ok := readDiceInt(v)
+			if !ok {
+				return
+			}
+			wodState.pool = n
 		case typeDiceWod:
 			v := stackPop() // 加骰线
+			addLine, ok := readDiceInt(v)
+			if !ok {
+				return
+			}
 
 			// 变量检查
-			if !wodCheck(ctx, v.MustReadInt(), wodState.pool, wodState.points, wodState.threshold) {
+			if !wodCheck(ctx, addLine, wodState.pool, wodState.points, wodState.threshold) {
 				return
 			}
 
 			// 每一轮的骰数都计入算力，加骰线过低或处于最大值模式时轮数没有上界
-			num, _, _, detailText, ok := rollWoD(ctx.RandSrc, v.MustReadInt(), wodState.pool, wodState.points, wodState.threshold, wodState.isGE, getRollMode(),
+			num, _, _, detailText, ok := rollWoD(ctx.RandSrc, addLine, wodState.pool, wodState.points, wodState.threshold, wodState.isGE, getRollMode(),
 				func(n IntType) bool { return !numOpCountAdd(n) })
 			if !ok {
 				return
@@ -1054,16 +1083,28 @@ func (ctx *Context) evaluate() {
 			dcInit()
 		case typeDCSetPool:
 			v := stackPop()
-			dcState.pool = v.MustReadInt()
-		case typeDCSetPoints:
-			v := stackPop()
-			dcState.points = v.MustReadInt()
-		case typeDiceDC:
-			v := stackPop() // 暴击值 / 也可以理解为加骰线
-			if !doubleCrossCheck(ctx, v.MustReadInt(), dcState.pool, dcState.points) {
+			n, ok := readDiceInt(v)
+			if !ok {
 				return
 			}
-			success, _, _, detailText, ok := rollDoubleCross(ctx.RandSrc, v.MustReadInt(), dcState.pool, dcState.points, getRollMode(),
+			dcState.pool = n
+		case typeDCSetPoints:
+			v := stackPop()
+			n, ok := readDiceInt(v)
+			if !ok {
+				return
+			}
+			dcState.points = n
+		case typeDiceDC:
+			v := stackPop() // 暴击值 / 也可以理解为加骰线
+			addLine, ok := readDiceInt(v)
+			if !ok {
+				return
+			}
+			if !doubleCrossCheck(ctx, addLine, dcState.pool, dcState.points) {
+				return
+			}
+			success, _, _, detailText, ok := rollDoubleCross(ctx.RandSrc, addLine, dcState.pool, dcState.points, getRollMode(),
 				func(n IntType) bool { return !numOpCountAdd(n) })
 			if !ok {
 				return
